@@ -254,7 +254,7 @@ def run_case(case):
         except Exception:
             pass
         ctx["normal2"] = np.asarray(y.normal, float) if hasattr(y, "normal") else None
-        ctx["normal1"] = np.asarray(x.normal, float) if (hasattr(x, "normal") and hasattr(x, "centroid") and cls in ("Polygon", "ConvexPolygon")) else None
+        ctx["normal1"] = np.asarray(x.normal, float) if cls in ("Polygon", "ConvexPolygon") else None
         if pl["rot"] != "I":
             ox.pop("distance_to_surface", None)  # defined for shapes lying in the xy-plane only (C14)
             oy.pop("distance_to_surface", None)
